@@ -22,7 +22,7 @@ def run(tier, seed, replay=None):
         ck.mc(DIR, "SccAlgs", "NC_tarjan.cfg", expect_violation="EmittedAreSccs")
         if tier == "thorough":
             for cfg in ("MC_tarjan3.cfg", "MC_kahn3.cfg", "MC_tarjan4.cfg", "MC_kahn4.cfg"):
-                ck.mc(DIR, "SccAlgs", cfg, timeout=3000)
+                ck.mc(DIR, "SccAlgs", cfg, timeout=14400)
         cases = [drv.gen(rng, nmax=4 if i % 4 == 0 else 8) for i in range(800 if tier == "quick" else 10000)]
     res = run_tasks("scc", "run_scc", cases, timeout=60)
     trs = []
